@@ -3,14 +3,14 @@
 (plus any extra ids given as id:P1,P2), revert, and record which checks raise a violation."""
 import json, os, subprocess, sys
 REG = set(json.load(open('/verif/MANIFEST.json'))['checks'][i]['property_id'] for i in range(len(json.load(open('/verif/MANIFEST.json'))['checks'])))
-base = '/tmp/mut'
+base = '/verif/seeded'
 out = {}
-ids = sys.argv[1:] or sorted(d[:-4] for d in os.listdir(base) if d.endswith('-out'))
+ids = sys.argv[1:] or sorted(set(d[:3] for d in os.listdir(base) if os.path.isdir(base + '/' + d)))
 for spec in ids:
     pid, _, extra = spec.partition(':')
     props = [pid] + [e for e in extra.split(',') if e]
     for x in 'AB':
-        patch = f'{base}/{pid}-out/{x}/patch.diff'
+        patch = f'{base}/{pid}-{x}/patch.diff'
         if not os.path.exists(patch):
             continue
         assert subprocess.run(['git', '-C', '/repo', 'diff', '--quiet']).returncode == 0, '/repo dirty'
@@ -31,4 +31,7 @@ for spec in ids:
             subprocess.run(['git', '-C', '/repo', 'clean', '-fdq'])
         out[f'{pid}/{x}'] = res
         print(pid, x, json.dumps(res), flush=True)
-json.dump(out, open('/tmp/mut/matrix_%s.json' % '_'.join(i.split(':')[0] for i in ids)[:60], 'w'), indent=1)
+mp = '/verif/seeded/MATRIX.json'
+old = json.load(open(mp)) if os.path.exists(mp) else {}
+old.update(out)
+json.dump(old, open(mp, 'w'), indent=1, sort_keys=True)
